@@ -8,9 +8,9 @@ set_option linter.unusedSimpArgs false
 set_option linter.unusedVariables false
 namespace MitmVerif.C43
 
-/-- invariant + valid focus + no internal exception -/
-structure Good (s : VS) : Prop where
-  core : Core s none
+/-- invariant (with `D` = the flows changed behind the view's back) + valid focus + no internal exception -/
+structure Good (s : VS) (D : List Nat) : Prop where
+  core : Core s D
   focus : FocusOK s
   nocrash : s.crash = false
   settings : ∀ g, g ∈ s.settings → g ∈ s.store
@@ -117,7 +117,7 @@ theorem loop_all {s0 : VS} : ∀ (rest done : List Nat) (acc : VS), LoopInv s0 a
     simpa using this
 
 structure RefilterSpec (s s' : VS) : Prop where
-  core : Core s' none
+  core : Core s' []
   focus : FocusOK s'
   crash : s'.crash = s.crash
   sigs : sigs s' = sigs s ++ [.vrefresh]
@@ -140,7 +140,7 @@ theorem refilter_spec {s : VS} (hnd : s.store.Nodup) :
   have hl' : LoopInv s0 s1 s.store := hl
   have hgen : ∀ g, gen s1 g = gen s0 g := gen_eq_of hl'.attrs hl'.slot
   have hvisq : ∀ g, visible s1 g = visible s0 g := visible_eq_of hl'.attrs hl'.showMarked hl'.filt
-  have hcore1 : Core s1 none := by
+  have hcore1 : Core s1 [] := by
     refine ⟨by rw [hl'.store]; exact hnd, hl'.viewNodup, ?_, hl'.sorted, ?_, ?_⟩
     · intro g hg; rw [hl'.store]; exact (hl'.viewIn g hg).1
     · intro g hg; exact ⟨_, hl'.fresh g hg, fun _ => (hgen g).symm⟩
@@ -167,7 +167,7 @@ theorem refilter_spec {s : VS} (hnd : s.store.Nodup) :
 
 /-! ### `Settings._sig_store_refresh` -/
 
-theorem core_purge {s : VS} {x : Option Nat} (h : Core s x) : Core (purge s) x := by
+theorem core_purge {s : VS} {x : List Nat} (h : Core s x) : Core (purge s) x := by
   have hc : ∀ g, g ∈ s.view → (purge s).cache g (purge s).slot = s.cache g s.slot := by
     intro g hg
     simp [purge, h.viewSub g hg]
@@ -236,8 +236,8 @@ theorem freshAll_all {s0 : VS} : ∀ (rest done : List Nat) (acc : VS), FreshAll
     have := ih (done ++ [f]) (freshen acc f) (freshAll_step h f)
     simpa using this
 
-structure OrderSpec (s s' : VS) : Prop where
-  core : Core s' none
+structure OrderSpec (s s' : VS) (D : List Nat) : Prop where
+  core : Core s' D
   focus : FocusOK s'
   crash : s'.crash = s.crash
   sigs : sigs s' = sigs s
@@ -246,7 +246,7 @@ structure OrderSpec (s s' : VS) : Prop where
   err : s'.err = s.err
   settings : SB s s'
 
-theorem setOrder_spec {s : VS} (h : Core s none) (hfo : FocusOK s) (sl : Nat) : OrderSpec s (opSetOrder s sl) := by
+theorem setOrder_spec {s : VS} {D : List Nat} (h : Core s D) (hfo : FocusOK s) (sl : Nat) : OrderSpec s (opSetOrder s sl) D := by
   let s1 : VS := { s with slot := sl }
   have h0 : FreshAll s1 s1 [] := ⟨rfl, rfl, rfl, rfl, rfl, rfl, rfl, rfl, rfl, rfl, rfl, by simp, fun g hg => Or.inl hg⟩
   have hl := freshAll_all (s0 := s1) s1.view [] s1 h0
@@ -274,12 +274,12 @@ theorem setOrder_spec {s : VS} (h : Core s none) (hfo : FocusOK s) (sl : Nat) : 
     exact foldl_insert_sorted _ _ _ (by simp [SortedBy])
   · intro g hg
     exact ⟨_, hl'.fresh g ((hmem g).mp hg), fun _ => (hgen g).symm⟩
-  · intro g hg _
+  · intro g hg hx
     have hg' : g ∈ s.store := by
       have : g ∈ s2.store := hg
       rw [hl'.store] at this; exact this
     rw [hmem, visible_eq_of (s := s) (s' := s3) hl'.attrs hl'.showMarked hl'.filt]
-    exact h.vis g hg' (by simp)
+    exact h.vis g hg' hx
   · unfold FocusOK at hfo ⊢
     have hf3 : s3.focus = s.focus := hl'.focus
     rw [hf3]
